@@ -68,15 +68,15 @@ Definition create_points (s : st) (k : kind) (key : name) (parent : option name)
 Definition crash_points (order : list nat) (s : st) (o : op) : list (nat * st) :=
   match o with
   | Prepare key parent l mok cbad =>
-      create_points s KActive key parent l ++
-      match create_snapshot s KActive key parent l with
+      create_points s KActive key parent (norm l) ++
+      match create_snapshot s KActive key parent (norm l) with
       | (s1, inr sn) =>
           match l_target l with
           | Some t =>
               if mok then
                 let s2 := fs_mount s1 (sn_id sn) l true in
                 (5, durable s1) ::
-                match commit_active s2 t key (set_remote l) true with
+                match commit_active s2 t key (set_remote (norm l)) true with
                 | (s3, None) => [(7, durable s1); (6, durable s3)]
                 | (_, Some EExists) => [(6, durable s1)]
                 | _ => []
@@ -86,9 +86,9 @@ Definition crash_points (order : list nat) (s : st) (o : op) : list (nat * st) :
           end
       | _ => []
       end
-  | View key parent l _ => create_points s KView key parent l
+  | View key parent l _ => create_points s KView key parent (norm l)
   | Commit nm key l =>
-      match commit_active s nm key l false with
+      match commit_active s nm key (norm l) false with
       | (_, None) => [(7, durable s)]
       | _ => []
       end
